@@ -216,6 +216,8 @@ impl<'a, T: FormatHandler + 'a> FormatContext<'a, T> {
             self.report.clone(),
         );
         visitor.skip_context.update_with_attrs(&self.krate.attrs);
+        // The inner attributes of an out-of-line module file scope over that file.
+        visitor.skip_context.update_with_attrs(module.attrs());
         visitor.is_macro_def = is_macro_def;
         visitor.last_pos = snippet_provider.start_pos();
         visitor.skip_empty_lines(snippet_provider.end_pos());
